@@ -43,13 +43,19 @@ impl Abs {
     fn mur_has(&self, w: &str) -> bool {
         (w == "REJT" && (self.mur == "REJT" || self.mur == "XREJTY")) || (w == "RETN" && self.mur == "RETN")
     }
-    fn ref_reject(&self) -> bool { self.mur_has("REJT") || (self.supports() && self.words.iter().any(|w| w == "/REJT/")) }
-    fn ref_return(&self) -> bool { self.mur_has("RETN") || (self.supports() && self.words.iter().any(|w| w == "/RETN/")) }
+    fn ref_reject(&self) -> bool { self.mur_has("REJT") || (self.supports() && self.words.iter().any(|w| w == "/REJT/")) || (self.mt == "199" && self.words == ["/REJT/"]) }
+    fn ref_return(&self) -> bool { self.mur_has("RETN") || (self.supports() && self.words.iter().any(|w| w == "/RETN/")) || (self.mt == "199" && self.words == ["/RETN/"]) }
     fn text(&self) -> String {
         let mut b = String::from("\r\n");
         match self.mt.as_str() {
             "103" => b.push_str(":20:TXN20240719001\r\n:23B:CRED\r\n:32A:240719USD1250,50\r\n:50K:/12345678\r\nJOHN DOE\r\n:59:/98765432\r\nJANE SMITH\r\n:71A:OUR\r\n"),
             "202" | "205" => b.push_str(":20:TXN20240719001\r\n:21:REF20240719001\r\n:32A:240719USD1250,50\r\n:58A:DEUTDEFF\r\n"),
+            "199" => {
+                // free format: the code word, if any, opens the narrative
+                let first = WORD_ORDER.iter().find(|(w, _)| self.words.iter().any(|x| x == w)).map(|(_, l)| *l).unwrap_or("PLAIN NARRATIVE");
+                b.push_str(&format!(":20:TXN20240719001\r\n:79:{}\r\nSECOND LINE /REJT/ AND /RETN/ MENTIONED\r\n", first));
+                return format!("{{1:F01BANKBEBBAXXX0000000000}}{{2:I199BANKDEFFXXXXN}}{{4:{}-}}", b);
+            }
             _ => b.push_str(":20:TXN20240719001\r\n:32A:240719USD1250,50\r\n:57A:CHASUS33XXX\r\n"),
         }
         let lines: Vec<&str> = WORD_ORDER.iter().filter(|(w, _)| self.words.iter().any(|x| x == w)).map(|(_, l)| *l).collect();
@@ -92,7 +98,13 @@ fn predicates<T: SwiftMessageBody + serde::de::DeserializeOwned>(text: &str) -> 
 
 pub fn observe(a: &Abs) -> Result<Obs, String> {
     let text = a.text();
-    let (reject, ret, cover, stp) = with_mt!(a.mt.as_str(), T => predicates::<T>(&text), else Err("type".into()))?;
+    let (mut reject, mut ret, cover, stp) = with_mt!(a.mt.as_str(), T => predicates::<T>(&text), else Err("type".into()))?;
+    if a.mt == "199" {
+        // MT199 carries its own predicates on the body
+        let m = guarded(|| SwiftParser::parse::<swift_mt_message::messages::MT199>(&text)).map_err(|p| format!("panic:{p}"))?.map_err(|e| format!("rejected:{e}"))?;
+        reject = reject || guarded(|| m.fields.is_reject_message()).map_err(|p| format!("panic:{p}"))?;
+        ret = ret || guarded(|| m.fields.is_return_message()).map_err(|p| format!("panic:{p}"))?;
+    }
     let r = guarded(|| run_plugin("parse_mt", json!({"mt": text}), json!({"source": "mt", "target": "out"}))).map_err(|p| format!("panic:{p}"))?;
     if !r.ok {
         return Err(format!("plugin:{}", r.err));
